@@ -30,21 +30,35 @@ void h_generate(void) {
         else ret = secp256k1_generator_generate(&ctx, &gen, key);
         __CPROVER_assert(ret == 0 || ret == 1, "C08 generate: returns 0 or 1");
         __CPROVER_assert(g_illegal == 0 && g_error == 0, "C08 generate: no callback for non-NULL arguments (and a signing-capable context when blinded)");
-        __CPROVER_assert(g_fin_n == 2, "C08 generate: two hash computations");
-        __CPROVER_assert(g_w_started && g_w_b0 == 0 && g_w_s0 == 0x6a09e667ul && g_w_fin && g_w_end == 48, "C08 generate: each is plain SHA-256 over 48 bytes");
-        if (wpos < 16) __CPROVER_assert(g_w_hit && g_w_byte == (we == 0 ? p1[wpos] : p2[wpos]), "C08 generate: bytes 0..15 are the generation prefix");
-        else if (wpos < 48) __CPROVER_assert(g_w_hit && g_w_byte == key[wpos - 16], "C08 generate: bytes 16..47 are the seed");
 #ifndef VERIF_NATIVE
-        {   wide t = be256(g_w_dig), p = P_(), b = be256(blind), n = N_();
-            /* each digest that is a canonical field element is an input of the map (identified by value) */
-            if (t < p) __CPROVER_assert(g_sv_n >= 2 && (fval(&g_sv_t0) == t || fval(&g_sv_t1) == t), "C08 generate: each digest is mapped to a curve point");
-            if (t >= p) __CPROVER_assert(ret == 0, "C08 generate: a digest that is not a canonical field element makes the seed unacceptable");
+        {   wide b = be256(blind), n = N_();
             if (blinded && b >= n) __CPROVER_assert(ret == 0, "C08 generate_blinded: blinding factor >= n rejected");
-            if (blinded && b < n) __CPROVER_assert(g_gen_n >= 1 && sval(&g_gen_a0) == b, "C08 generate_blinded: the blinding term is blind*G");
-            if (!blinded) __CPROVER_assert(g_gen_n == 0, "C08 generate: the unblinded generator involves no blinding term");
-            if (ret == 1) __CPROVER_assert(g_ag_n >= 1 && g_sg_n >= 1 && GEJ_EQ(g_sg_a0, g_ag_last), "C08 generate: the stored generator is the affine form of the final sum");
         }
 #endif
+        if (ret == 1) {     /* wiring is demanded of a successful derivation only (a failing one may stop anywhere) */
+            __CPROVER_assert(g_fin_n >= 2 && g_w_started && g_w_b0 == 0 && g_w_s0 == 0x6a09e667ul && g_w_fin && g_w_end == 48, "C08 generate: the two seeds hashes are plain SHA-256 over 48 bytes");
+            if (wpos < 16) __CPROVER_assert(g_w_hit && g_w_byte == (we == 0 ? p1[wpos] : p2[wpos]), "C08 generate: bytes 0..15 are the generation prefix");
+            else if (wpos < 48) __CPROVER_assert(g_w_hit && g_w_byte == key[wpos - 16], "C08 generate: bytes 16..47 are the seed");
+#ifndef VERIF_NATIVE
+            {   wide t = be256(g_w_dig), p = P_(), b = be256(blind);
+                int m0first;
+                __CPROVER_assert(t < p, "C08 generate: success only for digests that are canonical field elements");
+                __CPROVER_assert(g_sv_n >= 2 && (fval(&g_sv_t0) == t || fval(&g_sv_t1) == t), "C08 generate: each digest is mapped to a curve point");
+                /* the sum: either map point may come first */
+                if (blinded) {
+                    __CPROVER_assert(g_gen_n >= 1 && sval(&g_gen_a0) == b, "C08 generate_blinded: the blinding term is blind*G");
+                    m0first = GE_EQ(g_ag_b0, g_sv_r0);
+                    __CPROVER_assert(g_ag_n >= 2 && GEJ_EQ(g_ag_a0, g_gen_r0) && (m0first ? GE_EQ(g_ag_b0, g_sv_r0) : GE_EQ(g_ag_b0, g_sv_r1)), "C08 generate_blinded: the first addition is blind*G + one of the two map points");
+                    __CPROVER_assert(GEJ_EQ(g_ag_a1, g_ag_r0) && (m0first ? GE_EQ(g_ag_b1, g_sv_r1) : GE_EQ(g_ag_b1, g_sv_r0)), "C08 generate_blinded: the second addition adds the other map point to that sum");
+                    __CPROVER_assert(g_sg_n >= 1 && GEJ_EQ(g_sg_a0, g_ag_r1) && GEJ_EQ(g_ag_last, g_ag_r1), "C08 generate_blinded: the stored generator is the affine form of blind*G + M(t1) + M(t2)");
+                } else {
+                    m0first = !GE_EQ(g_ag_b0, g_sv_r0);
+                    __CPROVER_assert(g_ag_n >= 1 && !g_ag_a0.infinity && fval(&g_ag_a0.z) == 1 && (m0first ? (FE_EQ(g_ag_a0.x, g_sv_r0.x) && FE_EQ(g_ag_a0.y, g_sv_r0.y) && GE_EQ(g_ag_b0, g_sv_r1)) : (FE_EQ(g_ag_a0.x, g_sv_r1.x) && FE_EQ(g_ag_a0.y, g_sv_r1.y) && GE_EQ(g_ag_b0, g_sv_r0))), "C08 generate: the sum is M(t1) + M(t2), no blinding term");
+                    __CPROVER_assert(g_sg_n >= 1 && GEJ_EQ(g_sg_a0, g_ag_r0) && GEJ_EQ(g_ag_last, g_ag_r0), "C08 generate: the stored generator is the affine form of M(t1) + M(t2)");
+                }
+            }
+#endif
+        }
         if (ret == 1 && blinded) REACH("generate blinded success");
         if (ret == 1 && !blinded) REACH("generate unblinded success");
         if (ret == 0 && blinded) REACH("generate blinded failure");
@@ -53,7 +67,8 @@ void h_generate(void) {
         else if (nullsel == 1) ret = blinded ? secp256k1_generator_generate_blinded(&ctx, NULL, key, blind) : secp256k1_generator_generate(&ctx, NULL, key);
         else if (nullsel == 2) ret = blinded ? secp256k1_generator_generate_blinded(&ctx, &gen, NULL, blind) : secp256k1_generator_generate(&ctx, &gen, NULL);
         else { __CPROVER_assume(blinded); ret = secp256k1_generator_generate_blinded(&ctx, &gen, key, NULL); }
-        __CPROVER_assert(ret == 0 && g_illegal == 1 && g_error == 0, "C08 generate: NULL argument or unbuilt context reports illegal use and returns 0");
+        __CPROVER_assert(ret == 0 && g_error == 0, "C08 generate: NULL argument or unbuilt context returns 0");
+        if (nullsel != 0) __CPROVER_assert(g_illegal >= 1, "C08 generate: NULL argument reports illegal use");
         REACH("generate illegal use");
     }
 }
